@@ -3,6 +3,10 @@
    slice; this file collects the pass-level obligations: every pass that builds a clause node EQUALS a
    clean left-to-right specification, unboundedly; the written-list corollaries; and the closed
    pipeline families.) *)
+(* source pins: the functions of /repo the hand-written models in this file's cone mirror have the normalised AST they
+   were written from (tools/regen/gen_srcpins.py; a changed function breaks its Gen/Pin_*.v and this file with it) *)
+From SqlModel.Gen Require LexPins.   (* the scan loop, is_keyword, consume and the class-level state of sqlparse/lexer.py have the pinned shape *)
+From SqlModel.Gen Require Pin_sql_clauses Pin_sql_names Pin_sql_tree Pin_api_glue Pin_lexer_rules.
 From SqlModel.Inst Require PassTabRun.   (* the grouping tables of Group/Passes.v equal the ones regenerated from the source *)
 From SqlModel Require Import Base PyStr Node Inv Passes TotalDefs TotalBase TotalFacts ClauseSpec ClauseFacts.
 From SqlModel.Inst Require Import Cur C13Fin.
